@@ -20,11 +20,12 @@
 (* gives [b, max(hi,b)]: every page changed in a..b gets its b-version, every*)
 (* other page keeps a version that is also its version in b or later.        *)
 (*                                                                           *)
-(* Variant: "asis" | "fixed" (resume validated against the replica's newest  *)
-(* TXID, gaps bridged from level 9 too, sidecar published with the restored  *)
-(* database) | "m_pubfirst" (sidecar before apply) | "m_gap" (gap test off   *)
-(* by one in fillFollowGap; "m_gap0": off by one the other way): the seeded  *)
-(* mutants of tools/checks/c16.py.                                           *)
+(* Variant: "asis" | "m_pubfirst" (sidecar before apply) | "m_gap" (gap test *)
+(* off by one in fillFollowGap; "m_gap0": off by one the other way): the     *)
+(* seeded mutants of tools/checks/c16.py.  Fixes: the repaired findings (W1: *)
+(* resume validated against the replica's newest TXID; W2: gaps bridged from *)
+(* level 9 as a last resort; W3: first sidecar published before the restored *)
+(* database is renamed into place).                                          *)
 (***************************************************************************)
 EXTENDS Replica, FollowAlg
 
@@ -33,7 +34,7 @@ CONSTANTS Fine
 VARIABLES fp,      \* "off" | "run"
           fx, lo, hi, fbad, side,
           ft,      \* lastTXID of the running process (replica.go:814)
-          pc,      \* "idle" | "apply" | "pub"
+          pc,      \* "idle" | "apply" | "pub" | "mv" (W3 repaired: sidecar published, restored database not yet renamed)
           todo,    \* files the current poll still has to apply
           cur,     \* currentTXID of the poll
           step     \* apply: 0 not begun, 1 pages written, 2 synced, 3 truncated; pub: 0 nothing, 1 tmp written + synced
@@ -50,14 +51,22 @@ InitF == /\ Init
          /\ fp = "off" /\ fx = FALSE /\ lo = 0 /\ hi = 0 /\ fbad = FALSE /\ side = 0
          /\ ft = 0 /\ pc = "idle" /\ todo = <<>> /\ cur = 0 /\ step = 0
 
-\* fresh restore (output must not exist): plan, decode into .tmp, fsync, rename; then the first sidecar   replica.go:689-805
+\* fresh restore (output must not exist): plan, decode into .tmp, fsync; rename, then the first sidecar
+\* (W3 repaired: the first sidecar, then the rename)                                   replica.go:689-805
 FStart ==
   /\ fp = "off" /\ ~fx /\ pos > 0 /\ LatestF.err = "none"
   /\ LET m == Last(LatestF.plan).max IN
-     /\ fx' = TRUE /\ lo' = m /\ hi' = m /\ fp' = "run" /\ ft' = m /\ cur' = m /\ todo' = <<>> /\ step' = 0
-     /\ IF Fine /\ Variant # "fixed" THEN pc' = "pub" /\ side' = side
-        ELSE pc' = "idle" /\ side' = m
+     /\ fp' = "run" /\ ft' = m /\ cur' = m /\ todo' = <<>> /\ step' = 0
+     /\ IF ~Fine THEN fx' = TRUE /\ lo' = m /\ hi' = m /\ pc' = "idle" /\ side' = m
+        ELSE IF "W3" \in Fixes THEN fx' = FALSE /\ lo' = lo /\ hi' = hi /\ pc' = "pub" /\ side' = side
+        ELSE fx' = TRUE /\ lo' = m /\ hi' = m /\ pc' = "pub" /\ side' = side
   /\ UNCHANGED <<vars, fbad>>
+
+\* W3 repaired: the rename of the restored database after its sidecar
+FMove ==
+  /\ fp = "run" /\ pc = "mv"
+  /\ fx' = TRUE /\ lo' = ft /\ hi' = ft /\ pc' = "idle"
+  /\ UNCHANGED <<vars, fp, fbad, side, ft, todo, cur, step>>
 
 FResume ==
   /\ fp = "off" /\ fx /\ ResumeCheck(remote, side) = "ok"
@@ -106,7 +115,8 @@ FApply ==
 FPub ==
   /\ fp = "run" /\ pc = "pub"
   /\ IF step = 0 THEN /\ step' = 1 /\ UNCHANGED <<side, ft, pc, cur>>
-     ELSE /\ side' = Max2(cur, IF Variant = "m_pubfirst" THEN side ELSE 0) /\ ft' = cur /\ pc' = "idle" /\ cur' = 0 /\ step' = 0
+     ELSE /\ side' = Max2(cur, IF Variant = "m_pubfirst" THEN side ELSE 0) /\ ft' = cur /\ cur' = 0 /\ step' = 0
+          /\ pc' = IF fx THEN "idle" ELSE "mv"
   /\ UNCHANGED <<vars, fp, fx, lo, hi, fbad, todo>>
 
 \* SIGKILL (or a clean stop when idle): the process is gone, the files stay
@@ -123,7 +133,7 @@ NextF == \/ PTick \/ PSync \/ PSnapshot
          \/ \E d \in {1, 2} : PCompact(d)
          \/ \E c \in 1..(MaxClock + 1) : PSnapRet(c)
          \/ \E t \in 0..MaxClock : PL0Ret(t)
-         \/ FStart \/ FResume \/ FPoll \/ FApply \/ FPub \/ FKill
+         \/ FStart \/ FResume \/ FPoll \/ FApply \/ FPub \/ FMove \/ FKill
 SpecF == InitF /\ [][NextF]_allvars
 
 -----------------------------------------------------------------------------
